@@ -129,10 +129,15 @@ class Node:
         return f"<{self.tag} {self.attrs}>"
 
 
+IDENTITY_CALLS = ("clone", "cloned", "copied", "as_ref", "as_deref", "deref", "borrow", "to_owned", "into", "as_str", "as_mut", "iter", "into_iter")
+
+
 class Evaluator:
-    def __init__(self, bindings):
-        """bindings: {("param", name) or nf -> python value}"""
+    def __init__(self, bindings, opaque=False):
+        """bindings: {("param", name) or nf -> python value}; with `opaque`, a call the evaluator has no meaning for yields an opaque
+        value instead of ending the evaluation (for questions that only ask which variant / which branch results)"""
         self.b = bindings
+        self.opaque = opaque
 
     def ev(self, n):
         if not isinstance(n, tuple):
@@ -143,6 +148,8 @@ class Evaluator:
         if k == "lit":
             return n[1]
         if k == "param" or k == "local":
+            if self.opaque:
+                return ("opaque", n[1])
             raise Undecided(f"free variable {n[1]}")
         if k == "const":
             name = n[1].rsplit("::", 1)[-1]
@@ -224,6 +231,15 @@ class Evaluator:
         if k == "tuple":
             return ("tuple", tuple(self.ev(x) for x in n[1]))
         raise Undecided(f"normal form {k}")
+
+    def _soft(self, n):
+        """a component of a value being built: in opaque mode one that cannot be evaluated is opaque, the value is still built"""
+        if not self.opaque:
+            return self.ev(n)
+        try:
+            return self.ev(n)
+        except Undecided:
+            return ("opaque", "?")
 
     def _bool(self, v):
         if isinstance(v, bool):
@@ -312,7 +328,7 @@ class Evaluator:
         short = path.rsplit("::", 1)[-1]
         args = n[2]
         if path.startswith("struct:"):
-            return {a[1]: self.ev(a[2]) for a in args if isinstance(a, tuple) and a[0] == "field_init"}
+            return {a[1]: self._soft(a[2]) for a in args if isinstance(a, tuple) and a[0] == "field_init"}
         if short == "Some" and len(args) == 1:
             return some(self.ev(args[0]))
         if short == "Ok" and len(args) == 1:
@@ -323,7 +339,7 @@ class Evaluator:
             except Undecided:
                 return ("err", "?")
         if _is_variant_path(path) and short not in ("Some", "Ok", "Err"):
-            return ("variant", path, tuple(self.ev(a) for a in args))      # a tuple variant built from its payload
+            return ("variant", path, tuple(self._soft(a) for a in args))      # a tuple variant built from its payload
         if path.endswith("Node::<'a, 'input>::attribute") or short == "attribute":
             node = self.ev(args[0])
             name = self.ev(args[1])
@@ -406,7 +422,17 @@ class Evaluator:
                 return some(v[1])
             if isinstance(v, tuple) and v[0] == "err":
                 return NONE
-        s = self.summaries.get(path) if hasattr(self, "summaries") else None
+        if short in ("ok_or", "ok_or_else") and args:
+            v = self.ev(args[0])
+            if v is NONE:
+                return ("err", "?")
+            if isinstance(v, tuple) and v[0] == "some":
+                return ("ok", v[1])
+            raise Undecided(f"{short} of {v!r}")
+        if short in IDENTITY_CALLS and len(args) == 1:
+            return self.ev(args[0])
+        if self.opaque:
+            return ("opaque", path)
         raise Undecided(f"call {path}")
 
 
